@@ -83,6 +83,30 @@ theorem apply_total (core : Option String → Core) (pn pv) (o : Opts) :
     (applyModel core pn pv o).isSome = true := by
   simp [applyModel, Gen.applyTail]
 
+/-! ### the entry points around `Apply` -/
+
+/-- `ApplyForURL`, `ApplyForFile`, `ApplyForReader` are the statements the model follows: parse /
+open / fetch, then delegate; `ApplyForURL` puts the *parsed argument* into a copy of the options -/
+theorem entry_points_tie : Gen.entryPointBodies = Gen.entryPointBodiesExpected := by rfl
+
+theorem url_entry_point_shape :
+    (Gen.entryPointBodiesExpected.lookup "..ApplyForURL").map (fun l => l.drop 8) =
+      some ["urlOpts := Options{}", "if opts != nil { urlOpts = *opts }", "urlOpts.OriginalURL = parsedURL",
+            "return ApplyForReader(resp.Body, &urlOpts)"] ∧
+    (Gen.entryPointBodiesExpected.lookup "..ApplyForURL").map (fun l => l.take 1) =
+      some ["parsedURL, err := nurl.ParseRequestURI(url)"] ∧
+    Gen.entryPointBodiesExpected.lookup "..ApplyForReader" =
+      some ["doc, err := dom.Parse(r)", "if err != nil { return nil, err }", "return Apply(doc, opts)"] ∧
+    (Gen.entryPointBodiesExpected.lookup "..ApplyForFile").map (fun l => l.drop 3) = some ["return ApplyForReader(f, opts)"] := by
+  decide +kernel
+
+/-- **With `ApplyForURL`, Result.URL is the address the caller supplied** — whatever the caller's
+Options say and wherever the server redirects to. -/
+theorem url_entry_point_url (core : Option String → Core) (pn pv) (url : String) (o : Opts) (r : AResult Core)
+    (h : applyForURLModel core pn pv url o = some r) : r.url = url := by
+  have := url_field core pn pv { o with url := some url } r h
+  simpa using this
+
 /-! ### non-vacuity -/
 example : (applyModel (fun _ => ()) (fun _ => ("n", "p")) (fun _ => ("N", "P"))
             { url := some "http://e/", algo := 1 }).map (fun r => (r.url, r.pag)) = some ("http://e/", ("n", "p")) := by decide
